@@ -58,7 +58,9 @@ Definition model_ids (f : fam) (run : string) (n : nat) : list string :=
 
 Definition vrow_eqb (a b : vrow) : bool :=
   (o_label a =? o_label b)%string && list_eqb Z.eqb (o_vars a) (o_vars b)
-  && (o_enc a =? o_enc b)%string && (o_note a =? o_note b)%string.
+  && (o_enc a =? o_enc b)%string.
+  (* the free-text note column is carried in the cases for the record but is not a compared observable:
+     C12 says nothing about it, and rewording it must not raise an alarm *)
 
 Definition mem_str (x : string) (l : list string) : bool := existsb (String.eqb x) l.
 Definition same_set (a b : list string) : bool :=
@@ -103,7 +105,7 @@ Definition check_case (c : case) : bool :=
       && list_eqb vrow_eqb (map proj_row (as_sorted_array sm)) rows
       && list_eqb vrow_eqb (map proj_row (as_sorted_array (rev sm))) rows
       && match t with
-         | CSV => list_eqb String.eqb ("Solution" :: names ++ ["Actions"; "Summary"])%list header
+         | CSV => list_eqb String.eqb names header     (* the variable columns of the header line *)
          | JSON => true
          end
   end.
